@@ -642,6 +642,23 @@ def v_reward_exact_with_several_transactions(world, pid, rng):
     return finish(world, pid, txs, rng, reward=ref.subsidy(h) + _fees(world, pid, txs)), set(), set()
 
 
+def v_reward_split_over_bound(world, pid, rng):
+    """a reward split over several outputs, each of them within the bound, their sum above it"""
+    txs = []
+    if rng.random() < 0.5:
+        t = world.make_rtx(pid, rng, fee=rng.choice([0, 1, 999]))
+        if t is not None:
+            txs.append(t)
+    parent = world.chain.blocks[pid]
+    bound = ref.subsidy(parent.height + 1) + _fees(world, pid, txs)
+    k1, k2 = rng.choice(world.keys)[1], rng.choice(world.keys)[1]
+    outs = rng.choice([[(bound, k1), (1, k2)], [(bound, k1), (bound, k2)], [(bound // 2 + 1, k1), (bound - bound // 2, k2)],
+                       [(1, k1), (bound, k2)]])
+    ts = parent.ts + rng.choice([1, 60, 120])
+    blk = world.draft(pid, txs, ts, k1, reward_outputs=outs)
+    return world.mine(blk), {"reward"}, set()
+
+
 def v_output_spent_by_two_transactions(world, pid, rng):
     """value created by spending one output twice inside a block: two different, correctly signed transactions on the same
     output (sometimes the very same transaction listed twice), the reward claiming the fees of both"""
@@ -674,6 +691,7 @@ C02_CLASSES = {
     "valid-spend": c_valid_spend, "valid-multi": c_valid_multi, "reward-with-top-bit-amount": v_reward_with_top_bit_amount,
     "output-spent-by-two-transactions": v_output_spent_by_two_transactions,
     "reward-over-fees-of-several-transactions": v_reward_over_fees_of_several_transactions,
+    "reward-split-over-bound": v_reward_split_over_bound,
     "reward-exactly-at-bound-several-transactions": v_reward_exact_with_several_transactions,
 }
 
